@@ -150,7 +150,7 @@ def inline_comment_on_continued_line():
 
 
 def search(seed=0, keep_n=400):
-    hit = limit_off_case() or inline_comment_on_continued_line() or preprocessed_fixed_case() or comment_lines_between_continuations() or included_fixed_form()
+    hit = limit_off_case() or inline_comment_on_continued_line() or preprocessed_fixed_case() or comment_lines_between_continuations() or included_fixed_form() or alternate_block_then_blank_line()
     if hit:
         return hit
     n = 0
@@ -250,4 +250,19 @@ def form_by_extension():
     want = sorted([f"legacy_{k}" for k in range(len(exts_fixed))] + [f"modern_{k}" for k in range(len(exts_free))])
     if got != want:
         return {"confirmed": True, "input": {"files": files}, "actual": got, "expected": want, "how": "real Project with the default extension lists: modules found in fixed-form files of every fixed extension and free-form files of every free one"}
+    return None
+
+
+def alternate_block_then_blank_line():
+    """a blank line (empty, or blanks only) ends a block of alternate-marker documentation in fixed form as it does in free form: the ordinary comments after it are not documentation"""
+    for blank in ("", "          "):
+        fixed = f"      subroutine foo(a)\nC*    alternate block about foo\nC     goes on here\n{blank}\nC     Implementation note: not documentation\n*     neither is this\n      integer a\n      end subroutine foo\n"
+        free = f"subroutine foo(a)\n!* alternate block about foo\n! goes on here\n{blank}\n! Implementation note: not documentation\n! neither is this\ninteger a\nend subroutine foo\n"
+        try:
+            a, b = read(free, False), read(fixed, True, True)
+        except Exception as e:
+            return {"confirmed": True, "input": {"fixed": fixed}, "actual": f"{type(e).__name__}: {e}", "expected": "reads like the free-form rendering", "how": "real FortranReader(fixed=True)"}
+        if a != b:
+            return {"confirmed": True, "input": {"fixed": fixed, "free": free}, "actual": b, "expected": a,
+                    "how": "real FortranReader(fixed=True) vs the free-form rendering: an alternate documentation block, a blank line, ordinary comments"}
     return None
